@@ -166,8 +166,13 @@ func c20Gen(tp *Tapes) *c20Spec {
 	nNames := 1 + g.Draw(3)
 	for i := 0; i < nNames; i++ {
 		name := fmt.Sprintf("n%d.tpl", i)
-		if i == 1 && g.Draw(2) == 1 {
-			name = sp.Names[0] + ".amp" // one resolved name is a string prefix of another
+		if i == 1 {
+			switch g.Draw(4) {
+			case 0, 1:
+				name = sp.Names[0] + ".amp" // one resolved name is a string prefix of another
+			case 2:
+				name = "N0.TPL" // ... or differs from another in case only
+			}
 		}
 		sp.Names = append(sp.Names, name)
 		sp.Spell = append(sp.Spell, []string{"", "", "./", "zz/../"}[g.Draw(4)]+name)
